@@ -446,6 +446,10 @@ def run(ctx):
             ctx.oblige("tie:current-code-removes-old-sidecar-before-writing(variant `repaired`)", variant[0], "tie",
                        "" if variant[0] else f"the code behaves like the variant without the removal {variant}: re-exports "
                                              f"append to / trip over the old sidecar")
+            # since /repo e203da0 the unconditional theorem C15_load_after_save_no_cwd_check is the one that applies
+            ctx.oblige("tie:current-code-is-not-subject-to-the-CWD-relative-existence-check(v_cwd_check = false)", not variant[2], "tie",
+                       "" if not variant[2] else f"the code behaves like variant {variant}: a standard export raises FileExistsError "
+                                                 f"when the CWD holds an unrelated <basename>.data")
 
     ctx.coverage.update({
         "evaluations": stats["exports"] * 3 + stats["ort_runs"] + n_steps * len(VARIANTS),
